@@ -3,10 +3,18 @@
 Lean: Props/C12.lean over Model/Fit.lean (error definition, clamp of the initial guess, best-of-list rule, branch selection — run at ℚ
 against the real code) and Gen/ModelsR.lean (unit-scaling laws of the generated model equations, exact data ⇒ the generator is a global
 minimiser with error 0).  The optimiser is numerical: each fit is decided by the oracle below on the real classes.
+Props/C12/Guess.lean: the whole loop of `ModelIsotherm.guess` (`guessIdx`: candidates in the order tried, refused fits leave no attempt) —
+fed in BOTH tiers with the list of (converged?, reported error) in candidate order for every entry point (`ModelIsotherm.guess` on arrays
+and on a DataFrame, `from_pointisotherm`, `modelling.model_iso`, `pygaps.model_iso` when exported) and compared with the candidate returned;
+error-from-cost (`costErrSq`) differs from the reported error for every robust loss.
+
+Quantifier of the oracles: every clause is exercised with the documented pass-through arguments (`optimization_params`: loss, f_scale,
+max_nfev, ftol/xtol/gtol, method, x_scale, jac, tr_solver, verbose, Virial `add_point`; `param_guess`; `param_bounds` that are ACTIVE,
+i.e. exclude the unconstrained optimum; `verbose`), on either branch, through every constructor / entry point.
 """
 import math
 
-from pgv.charlib import qlist, quiet_logging
+from pgv.charlib import q, qlist, quiet_logging
 from pgv.core import import_pygaps
 from pgv.models import REL_ONLY, logu, make, relerr, sample_params
 
@@ -30,6 +38,13 @@ def run(ck):
     worst = {}
     lines, plan = [], []
 
+    import time
+    laps, t_last = {}, [time.time()]
+
+    def lap(label):
+        laps[label] = round(time.time() - t_last[0], 2)
+        t_last[0] = time.time()
+
     def note(k, v):
         worst[k] = max(worst.get(k, 0.0), v)
         return v
@@ -40,10 +55,16 @@ def run(ck):
             return np.array(sorted(rng.uniform(0.005, 0.9) / par["N"] for _ in range(n)))
         if name in REL_ONLY:
             return np.array(sorted([logu(rng, 1e-6, 1e-3), rng.uniform(0.5, 0.99), rng.uniform(0.1, 0.5)] + [logu(rng, 1e-5, 0.99) for _ in range(n - 3)]))
-        k = max([v for kk, v in par.items() if kk.startswith("K")] or [1.0])
+        ks = [v for kk, v in par.items() if kk.startswith("K")] or [1.0]
+        k_hi = max(ks)
+        # several sites (DS / TS Langmuir): low coverage of the strongest site up to near saturation of the WEAKEST one - with the range of the
+        # strongest site only, the dominant weak site stays in its Henry regime and four or six parameters are fitted to a straight line
+        k_lo = min(ks) if name in ("DSLangmuir", "TSLangmuir") else k_hi
         if name == "JensenSeaton":
-            k = par["K"] / par["a"]
-        return np.array(sorted([logu(rng, 1e-3, 1e-2) / k] + [logu(rng, 1e-2, 50) / k for _ in range(n - 1)]))
+            k_hi = k_lo = par["K"] / par["a"]
+        # one point at low coverage, one near saturation (without it 8 log-uniform points stay below K p = 2 in 4 % of the draws: such data do
+        # not determine a three-parameter model and the fit is not well-posed), the rest anywhere in between
+        return np.array(sorted([logu(rng, 1e-3, 1e-2) / k_hi, logu(rng, 10, 50) / k_lo] + [logu(rng, 1e-2 / k_hi, 50 / k_lo) for _ in range(n - 2)]))
 
     def common(name, pu="bar", lu="mmol"):
         rel = name in REL_ONLY
@@ -52,6 +73,78 @@ def run(ck):
 
     def predict(model, ps, ld):
         return np.asarray(model.loading(ps), dtype=float) if model.calculates == "loading" else np.asarray(model.pressure(ld), dtype=float)
+
+    LOSSES = ["linear", "soft_l1", "huber", "cauchy", "arctan"]
+
+    def sample_options(res_scale, p_any=0.6, one_param=True):
+        """documented pass-through to scipy.optimize.least_squares (every option that is allowed together with bounds);
+        `res_scale` = size of a typical residual, so that a robust loss really bends.
+        `one_param`: a one-parameter model (Henry) may receive the options: scipy 1.18 `least_squares(method='trf', tr_solver='lsmr')` raises
+        IndexError for a single variable (reproduced without pyGAPS), so 'lsmr' then comes with method='dogbox' only."""
+        if rng.random() > p_any:
+            return None
+        o = {}
+        if rng.random() < 0.65:
+            o["loss"] = rng.choice(LOSSES)
+            if o["loss"] != "linear" or rng.random() < 0.3:
+                o["f_scale"] = float(res_scale * logu(rng, 0.1, 10))
+        if rng.random() < 0.35:
+            o["max_nfev"] = rng.choice([300, 1000, 3000])      # larger budgets only make the slow models (TSLangmuir, GAB, WVST) take seconds per fit
+        if rng.random() < 0.3:
+            o[rng.choice(["ftol", "xtol", "gtol"])] = rng.choice([1e-6, 1e-10, 1e-12])
+        if rng.random() < 0.3:
+            o["method"] = rng.choice(["trf", "dogbox"])
+        if rng.random() < 0.2:
+            o["x_scale"] = "jac"
+        if rng.random() < 0.2:
+            o["jac"] = rng.choice(["2-point", "3-point"])
+        if rng.random() < 0.15:
+            o["tr_solver"] = rng.choice(["exact", "lsmr"])
+            if o["tr_solver"] == "lsmr" and one_param:
+                o["method"] = "dogbox"
+        if rng.random() < 0.15:
+            o["verbose"] = 0
+        return o or None
+
+    def cp(o):
+        """a fresh copy for every call (Virial.fit pops `add_point` from the caller's dictionary)"""
+        return dict(o) if o else None
+
+    def badly_scaled(ps, ld):
+        """known finding S33: least_squares with unscaled variables and an absolute gtol stops early when the numbers are badly scaled"""
+        return bool(not (1e-2 <= float(np.max(ld)) <= 1e4) or not (1e-2 <= float(np.max(ps)) <= 1e4))
+
+    DECADES = [(0, 0), (1, 0), (0, 1), (-1, 0), (0, -1), (1, 1), (-1, -1)]
+
+    def reproduced_in_other_units(name, ps, ld, identity_too=False):
+        """control experiment for a fit that misses exact model data: the SAME data in other units - powers of ten that bring the largest pressure
+        and loading to [1, 10), and one decade around that.  If one of those fits reproduces the data, the miss is the unit dependence of the
+        optimiser call (root cause of known finding S33: unscaled variables, absolute gtol, default guesses that depend on the unit), not the
+        fitting logic.  The scaling that leaves the data unchanged is the failing fit itself and proves nothing (skipped unless `identity_too`)."""
+        b_l = 10.0 ** (-math.floor(math.log10(float(np.max(ld)))))
+        b_p = 1.0 if name in REL_ONLY else 10.0 ** (-math.floor(math.log10(float(np.max(ps)))))
+        for i, j in DECADES:
+            s_p, s_l = (1.0 if name in REL_ONLY else b_p * 10.0 ** i), b_l * 10.0 ** j
+            if s_p == 1.0 and s_l == 1.0 and not identity_too:
+                continue
+            try:
+                m2 = pg.ModelIsotherm(pressure=ps * s_p, loading=ld * s_l, model=name, **common(name))
+                e2 = float(np.max(np.abs(predict(m2.model, ps * s_p, ld * s_l) - (ld * s_l if m2.model.calculates == "loading" else ps * s_p)))) / float(np.ptp(ld * s_l))
+                if e2 <= 2e-3:
+                    return True
+            except Exception:  # noqa
+                pass
+        return False
+
+    def cured_by_rescaling(name, ps, ld):
+        return reproduced_in_other_units(name, ps, ld)
+
+    def close_figures():
+        try:
+            import matplotlib.pyplot as plt
+            plt.close("all")
+        except Exception:
+            pass
 
     def reported_error_ok(m_iso, ps, ld, sig, detail):
         """the error reported equals the actual root-mean-square deviation, normalised as documented"""
@@ -79,7 +172,6 @@ def run(ck):
             if rng_ is None:
                 lines.append(f"vrmse2 {qlist(res)}")
             else:
-                from pgv.charlib import q
                 lines.append(f"rmse2 {qlist(res)} {q(rng_)}")
             plan.append(("rmse", float(model.rmse) ** 2 if rng_ is None else None, res, rng_, float(model.rmse)))
 
@@ -111,7 +203,7 @@ def run(ck):
                     e = float(np.max(np.abs(predict(m_iso.model, ps, ld) - (ld if m_iso.model.calculates == "loading" else ps)))) / float(max(ld) - min(ld))
                     note("self-fit:" + name, e)
                     if e > 2e-3:
-                        ck.fail_case({**sig, "clause": "fit of exact model data does not reproduce the data"}, {**detail, "fitted": {k: float(v) for k, v in m_iso.model.params.items()}, "worst_relative_deviation": e})
+                        ck.fail_case({**sig, "clause": "fit of exact model data does not reproduce the data", "badly_scaled": badly_scaled(ps, ld), "cured_by_rescaling": cured_by_rescaling(name, ps, ld)}, {**detail, "fitted": {k: float(v) for k, v in m_iso.model.params.items()}, "worst_relative_deviation": e})
                     for k, v in m_iso.model.params.items():
                         lo, hi = m_iso.model.param_bounds[k]
                         if not (lo <= v <= hi):
@@ -131,12 +223,30 @@ def run(ck):
             kw = {}
             user_bounds = None
             if rng.random() < 0.4 and name not in ("Virial",):
-                k0 = rng.choice(sorted(par))
-                user_bounds = {k0: (par[k0] * 0.5, par[k0] * 2.0)}
+                # bounds around the generating value, or ACTIVE ones that exclude it (the fit must end on the bound, not beyond)
+                user_bounds = {}
+                for k0 in rng.sample(sorted(par), 1 if rng.random() < 0.7 else min(2, len(par))):
+                    f_lo, f_hi = rng.choice([(0.5, 2.0), (0.5, 2.0), (1.5, 4.0), (0.1, 0.6)])
+                    user_bounds[k0] = (par[k0] * f_lo, par[k0] * f_hi)
                 kw["param_bounds"] = user_bounds
             if rng.random() < 0.3:
                 kw["param_guess"] = {k: v * rng.uniform(0.8, 1.25) for k, v in par.items()}
+                for k0, (lo, hi) in (user_bounds or {}).items():
+                    kw["param_guess"][k0] = lo + rng.uniform(0.05, 0.95) * (hi - lo)      # a user guess inside the user bounds
+            # documented pass-through options of the optimiser: the clauses hold whatever is passed
+            res_scale = 0.03 * (1.0 if name == "Virial" else float(max(noisy)) if gen.calculates == "loading" else float(max(ps)))
+            opts = sample_options(res_scale, 0.5, one_param=len(par) == 1)
+            if name == "Virial" and rng.random() < 0.4:
+                opts = {**(opts or {}), "add_point": rng.random() < 0.8}
+            if opts:
+                kw["optimization_params"] = cp(opts)
+                sig = {**sig, "options": sorted(opts)}
+                detail = {**detail, "optimization_params": dict(opts)}
+            if user_bounds or "param_guess" in kw:
+                detail = {**detail, "param_bounds": user_bounds, "param_guess": kw.get("param_guess")}
             ck.count(("noisy", name, i), bucket="error identity:" + name)
+            if opts:
+                ck.count(("noisy-opt", name, i), nontrivial=False, bucket="error identity with optimization_params" + (" (robust loss)" if opts.get("loss", "linear") != "linear" else ""))
             try:
                 m_iso = pg.ModelIsotherm(pressure=ps, loading=noisy, model=name, **kw, **common(name))
                 reported_error_ok(m_iso, ps, noisy, sig, detail)
@@ -150,6 +260,7 @@ def run(ck):
             except Exception as e:  # noqa
                 ck.fail_case({**sig, "clause": "fit raises a non-pyGAPS error", "error": type(e).__name__}, {**detail, "kwargs": str(kw)[:200], "error": repr(e)[:300]})
 
+    lap("exact + noisy fits")
     # -------------------------------------------------------------------- best of a list
     for i in range(N * 2):
         name = rng.choice(["Langmuir", "Toth", "DSLangmuir", "Freundlich", "TemkinApprox"])
@@ -188,7 +299,12 @@ def run(ck):
             order = [m for m in (_GUESS_MODELS if models == "guess" else models) if m in conv]
             lines.append(f"best {qlist([conv[m] for m in order])}")
             plan.append(("best", order.index(best.model.name) if best.model.name in order else -1, None, None, None))
+            if all(v is not None for v in singles.values()):
+                cands = list(_GUESS_MODELS if models == "guess" else models)
+                lines.append("guess [" + ";".join(q(conv[m]) if m in conv else "~" for m in cands) + "]")
+                plan.append(("guess", cands.index(best.model.name) if best.model.name in cands else -1, None, None, None))
 
+    lap("best of list (converging candidates)")
     # -------------------------------------------------------------------- branch selection
     for i in range(N * 2):
         pa, pd_ = {"K": logu(rng, 0.5, 5), "n_m": rng.uniform(2, 5)}, {"K": logu(rng, 8, 40), "n_m": rng.uniform(6, 9)}
@@ -220,6 +336,7 @@ def run(ck):
         lines.append(f"branch [{';'.join(map(str, bs))}] 1")
         plan.append(("branch", list(range(na, na + nd)), None, None, None))
 
+    lap("branch selection")
     # -------------------------------------------------------------------- point <-> model conversion and unit covariance
     for i in range(N * 3):
         name = rng.choice(["Langmuir", "Toth", "DSLangmuir", "Freundlich", "Henry", "TemkinApprox", "JensenSeaton"])
@@ -248,7 +365,10 @@ def run(ck):
             e = float(np.max(np.abs(np.asarray(refit.model.loading(ps), dtype=float) - np.asarray(gen.loading(ps), dtype=float)))) / float(np.ptp(np.asarray(gen.loading(ps), dtype=float)))
             note("refit:" + name, e)
             if e > 2e-3:
-                ck.fail_case({"clause": "re-fitting the generated points does not return the same curve", "model": name}, {"params": par, "refit": {k: float(v) for k, v in refit.model.params.items()}, "deviation": e})
+                ld_on = np.asarray(gen.loading(ps), dtype=float)
+                ck.fail_case({"clause": "re-fitting the generated points does not return the same curve", "model": name, "badly_scaled": badly_scaled(ps, ld_on), "cured_by_rescaling": cured_by_rescaling(name, ps, ld_on)},
+                             {"params": par, "refit": {k: float(v) for k, v in refit.model.params.items()}, "deviation": e, "pressure": ps.tolist(), "loading": ld_on.tolist(),
+                              "units": [m_iso.pressure_unit, m_iso.loading_unit]})
         except CalculationError:
             ck.count(("refit-refused", name, i), nontrivial=False, bucket="refit refused:" + name)
             continue
@@ -267,14 +387,377 @@ def run(ck):
             e = float(np.max(np.abs(a - b)) / np.ptp(a))
             note("unit covariance:" + name, e)
             if e > 5e-3:
+                # control experiment (see reproduced_in_other_units): the converted data are the original data times the harness's own unit
+                # factors, and EACH of the two data sets (as the library presents them, fitted by the plain constructor) is reproduced in some
+                # power-of-ten units.  Then conversion and fitting logic are right and the difference is the unit dependence of the optimiser
+                # call (known finding S33).  A wrong conversion is never "cured".
+                try:
+                    pa, la = np.asarray(p_iso.pressure(), dtype=float), np.asarray(p_iso.loading(), dtype=float)
+                    pb, lb = np.asarray(conv.pressure(), dtype=float), np.asarray(conv.loading(), dtype=float)
+                    # 1e-4: the library's torr is 133.322 Pa, the harness's 101325/760 (3e-6 apart); the oracle itself only sees differences above 5e-3
+                    same_data = np.allclose(pb, ps * fp, rtol=1e-4, atol=0) and np.allclose(lb, la * fl, rtol=1e-4, atol=0) and np.allclose(la, np.asarray(gen.loading(ps), dtype=float), rtol=1e-9, atol=0)
+                    cured = bool(same_data and reproduced_in_other_units(name, pa, la, identity_too=True) and reproduced_in_other_units(name, pb, lb, identity_too=True))
+                except Exception:  # noqa
+                    cured = False
                 ck.fail_case({"clause": "fit of the same data in other units differs by more than the unit change", "model_kind": "nonlinear",
-                              "badly_scaled": bool(not (1e-2 <= float(np.max(conv.loading())) <= 1e4) or not (1e-2 <= float(np.max(conv.pressure())) <= 1e4))},
-                             {"params": par, "units": [p_iso.pressure_unit, p_iso.loading_unit, pu2, lu2], "deviation": e})
+                              "badly_scaled": bool(not (1e-2 <= float(np.max(conv.loading())) <= 1e4) or not (1e-2 <= float(np.max(conv.pressure())) <= 1e4)),
+                              "cured_by_rescaling": cured},
+                             {"params": par, "units": [p_iso.pressure_unit, p_iso.loading_unit, pu2, lu2], "deviation": e, "pressure": ps.tolist()})
         except CalculationError:
             ck.count(("unit-refused", name, i), nontrivial=False, bucket="unit refit refused:" + name)
         except Exception as e:  # noqa
             ck.fail_case({"clause": "fit in other units raises", "model": name, "error": type(e).__name__}, {"params": par, "units": [pu2, lu2], "error": repr(e)[:300]})
 
+    lap("point<->model, refit, unit covariance")
+    # ==================================================================== data with one or two branches, shared by the sections below
+    import pygaps.modelling as pgm
+    GEN_ABS = ["Langmuir", "Toth", "DSLangmuir", "Freundlich", "TemkinApprox", "JensenSeaton", "Quadratic", "Henry"]
+
+    def branch_data(two_branch, regime, noise=0.02):
+        """noisy data of an absolute-pressure isotherm; adsorption rows first (increasing pressure), then - if asked - a desorption branch
+        (decreasing pressure, hysteresis: more loading).  regime 'high' keeps only the upper part of the coverage range."""
+        for _ in range(20):
+            name = rng.choice(GEN_ABS)
+            par = sample_params(name, rng)
+            gen = make(pg, name, par)
+            n = rng.choice([10, 16, 24, 40])
+            try:
+                ps = grid(name, par, n)
+                la = np.asarray(gen.loading(ps), dtype=float)
+            except Exception:
+                continue
+            if regime == "high" and name != "Henry":
+                keep = la >= 0.55 * np.max(la)
+                if keep.sum() >= 8:
+                    ps, la = ps[keep], la[keep]
+            la = la * np.array([1 + rng.uniform(-noise, noise) for _ in la])
+            if not (np.all(np.isfinite(la)) and np.all(np.diff(ps) > 0) and ps[0] > 0 and np.min(la) > 0 and np.ptp(la) > 0):
+                continue
+            pd_a, ld_a = ps, la
+            if two_branch:
+                nd = rng.randint(8, 20)
+                pdes = np.array(sorted((logu(rng, float(ps[0]), float(ps[-1]) * 0.999) for _ in range(nd)), reverse=True))
+                if len(set(pdes.tolist())) != nd:
+                    continue
+                h = rng.uniform(0.15, 0.5)
+                ldes = np.asarray(gen.loading(pdes), dtype=float) * (1 + h) * np.array([1 + rng.uniform(-noise, noise) for _ in pdes])
+                if not (np.all(np.isfinite(ldes)) and np.min(ldes) > 0 and np.ptp(ldes) > 0):
+                    continue
+            else:
+                pdes, ldes = np.array([]), np.array([])
+            return {"generator": name, "params": par, "ads": (pd_a, ld_a), "des": (pdes, ldes),
+                    "pressure": np.concatenate([pd_a, pdes]), "loading": np.concatenate([ld_a, ldes])}
+        return None
+
+    def as_frame(d, branch_column, shifted_index):
+        df = pd.DataFrame({"pressure": d["pressure"], "loading": d["loading"]})
+        if branch_column:
+            df["branch"] = [0] * len(d["ads"][0]) + [1] * len(d["des"][0])
+        if shifted_index:
+            df.index = range(7, 7 + len(df))
+        return df
+
+    EXTRA = {"project": "pgv", "n_runs": 3, "comment": "two words"}
+
+    def as_point(d, cm):
+        return pg.PointIsotherm(pressure=d["pressure"], loading=d["loading"], **EXTRA, **cm)
+
+    def keeps_properties(iso, cm, where):
+        got = iso.to_dict()
+        want = {**{k: v for k, v in cm.items() if k not in ("adsorbate",)}, **EXTRA}
+        diff = {k: [str(v), str(got.get(k))] for k, v in want.items() if got.get(k) != v}
+        if str(iso.adsorbate).lower() not in ("n2", "nitrogen"):
+            diff["adsorbate"] = ["N2", str(iso.adsorbate)]
+        if diff:
+            ck.fail_case({"clause": "model isotherm created from an isotherm loses metadata or units", "entry": where, "key": sorted(diff)[0]}, {"differences": diff})
+
+    def outcome(model, bp, bl, br, opts, cm, **kw):
+        """one candidate / one reference fit, exactly as the library does it inside a list: ('ok', error, isotherm) | ('refused',) | ('error', type)"""
+        try:
+            iso = pg.ModelIsotherm(pressure=bp, loading=bl, model=model, branch=br, optimization_params=cp(opts), **kw, **cm)
+            return ("ok", float(iso.model.rmse), iso)
+        except CalculationError:
+            return ("refused", None, None)
+        except Exception as e:  # noqa
+            return ("error", type(e).__name__ + ": " + repr(e)[:200], None)
+
+    # ==================================================================== best of a list: failing candidates at every position, every entry point
+    entries = {
+        "ModelIsotherm.guess(arrays)": lambda d, df, piso, cm, br, models, opts, vb: pg.ModelIsotherm.guess(
+            pressure=d[br][0], loading=d[br][1], branch=br, models=models, optimization_params=cp(opts), verbose=vb, **cm),
+        "ModelIsotherm.guess(DataFrame)": lambda d, df, piso, cm, br, models, opts, vb: pg.ModelIsotherm.guess(
+            isotherm_data=df, pressure_key="pressure", loading_key="loading", branch=br, models=models, optimization_params=cp(opts), verbose=vb, **cm),
+        "ModelIsotherm.from_pointisotherm": lambda d, df, piso, cm, br, models, opts, vb: pg.ModelIsotherm.from_pointisotherm(
+            piso, branch=br, model=models, optimization_params=cp(opts), verbose=vb),
+        "modelling.model_iso": lambda d, df, piso, cm, br, models, opts, vb: pgm.model_iso(
+            piso, branch=br, model=models, optimization_params=cp(opts), verbose=vb),
+    }
+    if hasattr(pg, "model_iso"):
+        entries["pygaps.model_iso"] = lambda d, df, piso, cm, br, models, opts, vb: pg.model_iso(
+            piso, branch=br, model=models, optimization_params=cp(opts), verbose=vb)
+    entry_names = sorted(entries)
+    turn = rng.randrange(len(entry_names))
+
+    # the predicate that documents which models 'guess' tries agrees with the list that is tried (any spelling of the case)
+    from pygaps.modelling import _MODELS, is_model_guess
+    for m in list(_MODELS) + ["NoSuchModel", ""]:
+        for spelled in (m, m.lower(), m.upper()):
+            ck.count(("is_model_guess", spelled), nontrivial=False, bucket="is_model_guess")
+            if bool(is_model_guess(spelled)) != (spelled.lower() in [g.lower() for g in _GUESS_MODELS]):
+                ck.fail_case({"clause": "is_model_guess disagrees with the models tried by 'guess'", "model": spelled}, {"is_model_guess": bool(is_model_guess(spelled)), "guess_models": list(_GUESS_MODELS)})
+
+    for i in range(ck.n(5, 40)):
+        two = rng.random() < 0.5
+        d = branch_data(two, "high" if i % 2 == 0 else "full")
+        if d is None:
+            continue
+        cm = common(d["generator"])
+        br = "des" if two and rng.random() < 0.5 else "ads"
+        bp, bl = d[br]
+        opts = None
+        r = rng.random()
+        if r < 0.35:
+            opts = sample_options(0.02 * float(np.max(bl)), 1.0)
+        elif r < 0.45:
+            opts = {"max_nfev": rng.choice([1, 2, 3, 5, 8])}         # most or all candidates are refused
+        df = as_frame(d, rng.random() < 0.5, rng.random() < 0.3)
+        piso = as_point(d, cm)
+        single = {m: outcome(m, bp, bl, br, opts, cm) for m in ALL}
+        okm = sorted((m for m in ALL if single[m][0] == "ok"), key=lambda m: single[m][1])
+        bad = [m for m in ALL if single[m][0] == "refused"]
+        for m in ALL:
+            if single[m][0] == "error":
+                ck.fail_case({"model": m, "clause": "fit raises a non-pyGAPS error", "error": single[m][1].split(":")[0], "branch": br},
+                             {"pressure": bp.tolist(), "loading": bl.tolist(), "optimization_params": opts, "error": single[m][1]})
+        usable = [m for m in ALL if single[m][0] != "error"]
+        kinds = ["random", "failed-first", "failed-before-best", "failed-between", "failed-last"]
+        rng.shuffle(kinds)
+        kinds = kinds[:ck.n(3, 5)] + (["guess"] if i % 3 == 0 else []) + (["all-failed"] if bad and i % 4 == 1 else [])
+        for kind in kinds:
+            if kind == "guess":
+                models = "guess"
+                cands = list(_GUESS_MODELS)
+            elif kind == "all-failed":
+                cands = rng.sample(bad, min(len(bad), rng.randint(1, 3)))
+                models = list(cands)
+            else:
+                n_ok = rng.randint(1, min(4, len(okm))) if okm else 0
+                n_bad = rng.randint(1, min(3, len(bad))) if bad else 0
+                good, failed = rng.sample(okm, n_ok), rng.sample(bad, n_bad)
+                if kind == "random" or not failed or not good:
+                    cands = rng.sample(usable, min(len(usable), rng.randint(2, 6)))
+                elif kind == "failed-first":
+                    cands = failed + good
+                elif kind == "failed-last":
+                    cands = good + failed
+                else:
+                    good.sort(key=lambda m: -single[m][1])                  # the best candidate stands last
+                    if kind == "failed-before-best":
+                        cands = good[:-1] + failed + good[-1:]
+                    else:
+                        cands = list(good)
+                        for f in failed:
+                            cands.insert(rng.randint(0, len(cands) - 1), f)
+                models = list(cands)
+                if rng.random() < 0.15:
+                    models = tuple(models)
+                if rng.random() < 0.15:
+                    models = [m.lower() if rng.random() < 0.5 else m for m in models]     # model names are case-insensitive
+            if any(single[m][0] == "error" for m in cands):
+                continue
+            entry = entry_names[turn % len(entry_names)]
+            turn += 1
+            # TODO(candidate defect, reported): ModelIsotherm.guess(..., verbose=True) raises ValueError from graphing.plot_model_guesses as soon as a
+            # loading model and Virial both converge (Virial.loading does not accept the array of pressures); verbose lists stay without Virial
+            # and CalculationError when FHVST / WVST "converge" on meaningless parameters (their numerical loading() fails inside the plot): verbose
+            # lists are generated without the models whose loading is found numerically
+            vb = rng.random() < 0.12 and not any(m in ("Virial", "FHVST", "WVST") for m in cands)
+            conv = [(j, single[m][1]) for j, m in enumerate(cands) if single[m][0] == "ok"]
+            expect = min(conv, key=lambda t: (t[1], t[0]))[0] if conv else None
+            has_bad_before = expect is not None and any(single[m][0] == "refused" for m in cands[:expect])
+            ck.count(("list", i, kind, entry), bucket="best of list via " + entry, sample={"entry": entry, "candidates": list(cands), "branch": br} if i == 0 else None)
+            ck.count(("list-kind", i, kind), nontrivial=False, bucket="best of list: " + ("a refused candidate stands before the best one" if has_bad_before else "no candidate converges" if expect is None else
+                                                                                         "refused candidates elsewhere" if len(conv) < len(cands) else "every candidate converges"))
+            sig = {"entry": entry, "branch": br, "options": sorted(opts) if opts else None}
+            detail = {"candidates": list(models) if models != "guess" else "guess", "candidate_errors_in_order": [[m, single[m][1] if single[m][0] == "ok" else "refused"] for m in cands],
+                      "optimization_params": opts, "pressure": bp.tolist(), "loading": bl.tolist(), "generator": d["generator"], "list_kind": kind}
+            try:
+                best = entries[entry](d, df, piso, cm, br, models, opts, vb)
+                got = [j for j, m in enumerate(cands) if m == best.model.name]
+                got = got[0] if got else -1
+                if vb:
+                    close_figures()
+            except CalculationError:
+                got = None
+            except Exception as e:  # noqa
+                ck.fail_case({**sig, "clause": "guess raises a non-pyGAPS error", "error": type(e).__name__, "refused_before_best": has_bad_before}, {**detail, "error": repr(e)[:300]})
+                continue
+            lines.append("guess [" + ";".join(q(single[m][1]) if single[m][0] == "ok" else "~" for m in cands) + "]")
+            plan.append(("guess", -2 if got is None else got, None, None, None))
+            if expect is None:
+                if got is not None:
+                    ck.fail_case({**sig, "clause": "a model is returned although no candidate converges"}, {**detail, "returned": best.model.name})
+                continue
+            if got is None:
+                ck.fail_case({**sig, "clause": "guess refused although a candidate converges", "refused_before_best": has_bad_before}, detail)
+                continue
+            lo = conv and min(e for _, e in conv)
+            if got != expect or abs(float(best.model.rmse) - lo) > 1e-9 * max(lo, 1e-12) + 1e-15:
+                ck.fail_case({**sig, "clause": "model returned from a list does not have the smallest reported error", "refused_before_best": has_bad_before},
+                             {**detail, "returned": best.model.name, "returned_error": float(best.model.rmse), "expected": cands[expect], "smallest_error": lo})
+                continue
+            reported_error_ok(best, bp, bl, {**sig, "model": best.model.name}, detail)
+            if best.branch != br:
+                ck.fail_case({**sig, "clause": "fit used points of another branch", "what": "branch label"}, {**detail, "label": best.branch})
+            if entry in ("ModelIsotherm.from_pointisotherm", "modelling.model_iso", "pygaps.model_iso"):
+                keeps_properties(best, cm, entry)
+
+    lap("best of list (refused candidates, entry points)")
+    # ==================================================================== one model through every entry point: branch, ACTIVE bounds, guesses, options
+    single_entries = {
+        "ModelIsotherm(DataFrame)": lambda d, df, piso, cm, br, kw: pg.ModelIsotherm(isotherm_data=df, pressure_key="pressure", loading_key="loading", branch=br, **kw, **cm),
+        "ModelIsotherm.from_pointisotherm": lambda d, df, piso, cm, br, kw: pg.ModelIsotherm.from_pointisotherm(piso, branch=br, **kw),
+        "modelling.model_iso": lambda d, df, piso, cm, br, kw: pgm.model_iso(piso, branch=br, **kw),
+        "ModelIsotherm.from_isotherm(arrays)": lambda d, df, piso, cm, br, kw: pg.ModelIsotherm.from_isotherm(piso, pressure=d[br][0], loading=d[br][1], branch=br, **kw),
+        "ModelIsotherm.from_isotherm(DataFrame)": lambda d, df, piso, cm, br, kw: pg.ModelIsotherm.from_isotherm(piso, isotherm_data=df, pressure_key="pressure", loading_key="loading", branch=br, **kw),
+    }
+    if hasattr(pg, "model_iso"):
+        single_entries["pygaps.model_iso"] = lambda d, df, piso, cm, br, kw: pg.model_iso(piso, branch=br, **kw)
+    single_names = sorted(single_entries)
+    for i in range(ck.n(8, 60)):
+        d = branch_data(True, "full", noise=0.03)
+        if d is None:
+            continue
+        cm = common(d["generator"])
+        br = rng.choice(["ads", "des"])
+        bp, bl = d[br]
+        model = rng.choice(["Langmuir", "Toth", "Freundlich", "Henry", "DSLangmuir", "TemkinApprox", "JensenSeaton", "Quadratic", "TSLangmuir"])
+        free = outcome(model, bp, bl, br, None, cm)
+        if free[0] != "ok":
+            continue
+        star = {k: float(v) for k, v in free[2].model.params.items()}
+        kw = {"model": model}
+        user_bounds = None
+        if rng.random() < 0.7:
+            # bounds that EXCLUDE the unconstrained optimum: the constrained fit must stop on them
+            user_bounds = {}
+            for k0 in rng.sample(sorted(star), 1 if rng.random() < 0.7 else min(2, len(star))):
+                if not (star[k0] > 0 and math.isfinite(star[k0])):
+                    continue
+                f_lo, f_hi = rng.choice([(1.3, 3.0), (0.2, 0.75), (0.6, 1.7)])
+                dlo, dhi = free[2].model.param_bounds[k0]
+                lo, hi = max(star[k0] * f_lo, dlo), min(star[k0] * f_hi, dhi)
+                if lo < hi:
+                    user_bounds[k0] = (lo, hi)
+            if user_bounds:
+                kw["param_bounds"] = user_bounds
+            else:
+                user_bounds = None
+        if rng.random() < 0.5:
+            g = {k: (v * rng.uniform(0.8, 1.25) if v != 0 else 0.01) for k, v in star.items()}
+            for k0, (lo, hi) in (user_bounds or {}).items():
+                g[k0] = lo + rng.uniform(0.05, 0.95) * (hi - lo)
+            kw["param_guess"] = g
+        opts = sample_options(0.03 * float(np.max(bl)), 0.5, one_param=model == "Henry")
+        vb = rng.random() < 0.15
+        ref = outcome(model, bp, bl, br, opts, cm, **{k: (dict(v) if isinstance(v, dict) else v) for k, v in kw.items() if k != "model"})
+        df = as_frame(d, rng.random() < 0.5, rng.random() < 0.3)
+        piso = as_point(d, cm)
+        for entry in [single_names[(turn + j) % len(single_names)] for j in range(2)]:
+            turn += 1
+            ck.count(("entry", i, entry), bucket="single model via " + entry + ":" + br)
+            sig = {"entry": entry, "model": model, "branch": br, "options": sorted(opts) if opts else None,
+                   "user_bounds": user_bounds is not None, "user_guess": "param_guess" in kw}
+            detail = {"pressure": bp.tolist(), "loading": bl.tolist(), "other_branch": [x.tolist() for x in d["ads" if br == "des" else "des"]],
+                      "param_bounds": user_bounds, "param_guess": kw.get("param_guess"), "optimization_params": opts, "unconstrained_fit": star}
+            call_kw = {k: (dict(v) if isinstance(v, dict) else v) for k, v in kw.items()}
+            call_kw["optimization_params"] = cp(opts)
+            call_kw["verbose"] = vb
+            try:
+                got = single_entries[entry](d, df, piso, cm, br, call_kw)
+                if vb:
+                    close_figures()
+            except (CalculationError, ParameterError) as e:
+                if ref[0] == "ok":
+                    ck.fail_case({**sig, "clause": "entry point refuses a fit that the constructor performs on the same data and arguments"}, {**detail, "error": repr(e)[:300]})
+                else:
+                    ck.count(("entry-refused", i, entry), nontrivial=False, bucket="single model refused")
+                continue
+            except Exception as e:  # noqa
+                ck.fail_case({**sig, "clause": "fit raises a non-pyGAPS error", "error": type(e).__name__}, {**detail, "error": repr(e)[:300]})
+                continue
+            reported_error_ok(got, bp, bl, sig, detail)
+            for k, v in got.model.params.items():
+                lo, hi = (user_bounds or {}).get(k, got.model.param_bounds[k])
+                if not (lo - 1e-12 * abs(lo) <= v <= hi + 1e-12 * abs(hi)):
+                    ck.fail_case({**sig, "clause": "fitted parameter outside the bounds in force"}, {**detail, "parameter": k, "value": float(v), "bounds": [lo, hi]})
+            if got.branch != br:
+                ck.fail_case({**sig, "clause": "fit used points of another branch", "what": "branch label"}, {**detail, "label": got.branch})
+            if ref[0] == "ok":
+                # the same data, branch and arguments: the same fit (this is how a dropped / swapped argument or the wrong branch shows)
+                dev = max([relerr(float(got.model.params[k]), float(v)) for k, v in ref[2].model.params.items()] + [relerr(float(got.model.rmse), ref[1])])
+                note("entry point vs constructor", dev)
+                if dev > 1e-9:
+                    other_p, other_l = d["ads" if br == "des" else "des"]
+                    o_other = outcome(model, other_p, other_l, "ads" if br == "des" else "des", opts, cm, **{k: (dict(v) if isinstance(v, dict) else v) for k, v in kw.items() if k != "model"})
+                    is_other = o_other[0] == "ok" and max(relerr(float(got.model.params[k]), float(v)) for k, v in o_other[2].model.params.items()) <= 1e-9
+                    ck.fail_case({**sig, "clause": "fit used points of another branch" if is_other else "entry point does not fit the requested branch with the arguments passed"},
+                                 {**detail, "fitted": {k: float(v) for k, v in got.model.params.items()}, "constructor_on_the_branch": {k: float(v) for k, v in ref[2].model.params.items()},
+                                  "error": float(got.model.rmse), "constructor_error": ref[1]})
+            elif ref[0] == "refused":
+                ck.fail_case({**sig, "clause": "entry point does not fit the requested branch with the arguments passed", "what": "constructor refuses"}, detail)
+            if entry != "ModelIsotherm(DataFrame)":
+                keeps_properties(got, cm, entry)
+
+    lap("single model through entry points")
+    # ==================================================================== models that calculate pressure: point isotherm from loading points; Virial with an added point
+    for i in range(ck.n(4, 30)):
+        name = rng.choice(["Virial", "FHVST", "WVST"])
+        par = sample_params(name, rng)
+        gen = get_isotherm_model(name, parameters={k: np.float64(v) for k, v in par.items()})
+        top = 0.9 * par["n_m"] if "n_m" in par else 3.0
+        lds = np.array(sorted(rng.uniform(0.02, 1.0) * top for _ in range(rng.choice([8, 15, 30]))))
+        try:
+            want_p = np.asarray(gen.pressure(lds), dtype=float)
+        except Exception:
+            continue
+        if not (np.all(np.isfinite(want_p)) and np.all(np.diff(want_p) > 0) and want_p[0] > 0):
+            continue
+        meta = {"project": "pgv", "n_runs": 3, "comment": "two words", "is_real": True}
+        cmx = common(name, pu=rng.choice(list(P_UNITS)), lu=rng.choice(list(L_UNITS)))
+        m_iso = pg.ModelIsotherm(model=gen, branch="ads", **meta, **cmx)
+        ck.count(("conv-p", name, i), bucket="point<->model (loading points):" + name)
+        try:
+            p_iso = pg.PointIsotherm.from_modelisotherm(m_iso, loading_points=lds)
+        except Exception as e:  # noqa
+            ck.fail_case({"clause": "from_modelisotherm raises", "model": name, "error": type(e).__name__}, {"params": par, "loading_points": lds.tolist(), "error": repr(e)[:300]})
+            continue
+        if not (np.allclose(p_iso.pressure(), want_p, rtol=1e-12, atol=0) and np.allclose(p_iso.loading(), lds, rtol=0, atol=0)):
+            ck.fail_case({"clause": "generated point isotherm does not lie on the model", "model": name}, {"params": par, "loading_points": lds.tolist()})
+        d_m, d_p = m_iso.to_dict(), p_iso.to_dict()
+        missing = {k: [str(d_m.get(k)), str(d_p.get(k))] for k in list(meta) + list(cmx) if d_m.get(k) != d_p.get(k)}
+        if missing:
+            ck.fail_case({"clause": "generated point isotherm loses metadata or units", "model": name, "key": sorted(missing)[0]}, {"differences": missing})
+        if name == "Virial":
+            # one pressure point: the loading is found numerically (Nelder-Mead started at x0 = pressure).
+            # TODO(known finding S24 of C10): outside 0.5 <= loading/pressure <= 10 the search ends on non-roots although success is reported, and an
+            # array of more than one pressure raises ValueError; only the region where the start value is adequate is generated here
+            ok_pts = [j for j in range(len(lds)) if 0.5 <= lds[j] / want_p[j] <= 10]
+            if ok_pts:
+                j = rng.choice(ok_pts)
+                ck.count(("conv-p1", name, i), bucket="point<->model (one pressure point):Virial")
+                try:
+                    one = pg.PointIsotherm.from_modelisotherm(m_iso, pressure_points=[float(want_p[j])])
+                    back = float(np.ravel(gen.pressure(np.asarray(one.loading(), dtype=float)))[0])
+                    e = abs(back - float(want_p[j])) / float(want_p[j])
+                    note("Virial point from one pressure", e)
+                    if not (e <= 5e-3 and float(np.ravel(one.pressure())[0]) == float(want_p[j])):
+                        ck.fail_case({"clause": "generated point isotherm does not lie on the model", "model": name, "points": "one pressure"},
+                                     {"params": par, "pressure": float(want_p[j]), "loading_on_model": float(lds[j]), "loading_returned": float(np.ravel(one.loading())[0]), "relative_pressure_mismatch": e})
+                except Exception as e:  # noqa
+                    ck.fail_case({"clause": "from_modelisotherm raises", "model": name, "error": type(e).__name__, "points": "one pressure"}, {"params": par, "pressure": float(want_p[j]), "error": repr(e)[:300]})
+
+    lap("pressure models")
     # -------------------------------------------------------------------- clamp of the initial guess
     base = get_isotherm_model("Langmuir")
     for i in range(N * 4):
@@ -282,11 +765,12 @@ def run(ck):
         v = rng.choice([lo if math.isfinite(lo) else -7.0, hi if math.isfinite(hi) else 9.0, rng.uniform(-3, 8)])
         base.param_bounds["K"] = (lo, hi)
         got = base.initial_guess_bounds({"K": v})["K"]
-        from pgv.charlib import optq, q
+        from pgv.charlib import optq
         lines.append(f"clamp {optq(lo if math.isfinite(lo) else None)} {optq(hi if math.isfinite(hi) else None)} {q(v)}")
         plan.append(("clamp", float(got), None, None, None))
         ck.count(("clamp", lo, hi, v), nontrivial=False, bucket="initial guess clamp")
 
+    lap("clamp")
     # -------------------------------------------------------------------- correspondence
     n_dis = 0
     try:
@@ -303,6 +787,8 @@ def run(ck):
                 ok = t[0] == "ok" and abs(math.sqrt(float(parse_q(t[1]))) - rep_err) <= 1e-9 * max(rep_err, 1e-12) + 1e-15
             elif what == "best":
                 ok = t[0] == "ok" and int(t[1]) == a
+            elif what == "guess":
+                ok = (t[0] == "none" and a == -2) or (t[0] == "ok" and int(t[1]) == a)
             elif what == "branch":
                 ok = t[0] == "ok" and [int(x) for x in t[1][1:-1].split(";") if x] == a
             else:
@@ -311,8 +797,17 @@ def run(ck):
                 n_dis += 1
                 if n_dis <= 3:
                     ck.broken.append({"step": f"correspondence Model/Fit.lean ({what})", "what": {"request": line[:300], "model": rep[:200], "implementation": str(a if what != 'rmse' else rep_err)[:200]}})
+    lap("correspondence (Lean driver)")
+    ck.cov["section_wall_s"] = laps
     ck.cov["correspondence_disagreements"] = n_dis
     ck.cov["worst"] = {k: float(f"{v:.3g}") for k, v in sorted(worst.items())}
-    ck.cov["rule"] = ("10 well-posed models x generating parameters in bounds x grids of 8-60 points spanning low coverage to near saturation (exact data); all 16 models on monotone noisy data (3 %) with user bounds and "
-                      "guesses for the error identity and bounds; candidate lists of 2-5 models and 'guess'; two-branch data with and without a branch column; point<->model conversion and refits in 5 pressure x 3 loading units and °C")
-    ck.assumptions += ["scipy.optimize.least_squares is numerical: a reported non-convergence (CalculationError) is an honest refusal and is counted, not flagged"]
+    ck.cov["rule"] = ("10 well-posed models x generating parameters in bounds x grids of 8-60 points spanning low coverage to near saturation (exact data); all 16 models on noisy data (3 %) with user bounds "
+                      "(around the optimum and ACTIVE ones that exclude it), user guesses and optimization_params (loss, f_scale, max_nfev, ftol/xtol/gtol, method, x_scale, jac, tr_solver, verbose, Virial add_point) for the error "
+                      "identity and bounds; candidate lists of 1-6 of all 16 models and 'guess' with refused candidates first / between / immediately before the best / last / everywhere, through ModelIsotherm.guess (arrays, "
+                      "DataFrame), from_pointisotherm, modelling.model_iso, on either branch, fed to Model/Fit.guessIdx in candidate order; one model through every entry point (constructor, from_pointisotherm, model_iso, "
+                      "from_isotherm) with branch, active bounds, guesses, options, verbose; two-branch data with and without a branch column; point<->model conversion (pressure points; loading points for the "
+                      "pressure-explicit models) and refits in 5 pressure x 3 loading units and degC")
+    ck.assumptions += ["scipy.optimize.least_squares is numerical: a reported non-convergence (CalculationError) is an honest refusal and is counted, not flagged",
+                       "verbose=True is exercised without the models whose loading() is numerical (Virial, FHVST, WVST) in candidate lists: graphing.plot_model_guesses evaluates every attempt on the "
+                       "pressure points and raises from inside the plot (reported as candidate defects, not part of C12)",
+                       "scipy 1.18 least_squares(method='trf', tr_solver='lsmr') raises IndexError for a one-variable problem: 'lsmr' reaches Henry only together with method='dogbox'"]
